@@ -5,6 +5,7 @@ import (
 	"fmt"
 	"os"
 	"path/filepath"
+	"regexp"
 	"runtime"
 	"sort"
 	"strings"
@@ -699,6 +700,15 @@ func runC12(c *Ctx) {
 		if i%c12BalanceEvery == 0 {
 			c.c12SharedBalanceCase("shared", i, k)
 		}
+	}
+	bt.Flush()
+	// ---- the valued report of the binary with and without row filters: `knut balance -v V --csv -s .` [--commodity] [--account] [--to]
+	nf := c.N(250, 4000)
+	for i := 0; i < nf; i++ {
+		if !c.Want("filter", i) || !on("filter") {
+			continue
+		}
+		c.c12FilterCaseRun(bt, "filter", i, c12GenFilter(c.Rng("filter", i)))
 	}
 }
 
@@ -1420,4 +1430,399 @@ func (c *Ctx) c12SharedBalanceCase(stream string, i int, k c12Case) {
 		c.Monitor(stream, i, "knut balance -v on the include tree: fails exactly for a zero price (invalid price) or a booked commodity not connected to V (no price found)", in, ok,
 			fmt.Sprintf("run %d env %v: exit %d stderr %q; zero price directives: %s; booked commodities not connected to %s: %v", run, env, code, c12FirstLine(stderr), c12ZeroDirectives(k), k.V, unconnected))
 	}
+}
+
+// ---------------------------------------------------------------- stream filter: `knut balance -v V --csv -s .` with and without row filters
+
+// A row filter (--commodity, --account) selects rows of the valued report; it never changes the price a position is valued at.
+// The unfiltered report's cells must be quantity x the model's normalised price of the report date; every cell of a filtered
+// report must be the same cell of the unfiltered report, and the Assets rows shown are exactly the selected ones.
+
+type c12Position struct {
+	Acct int // Assets:P<Acct>
+	Com  string
+	Qty  string
+}
+
+type c12FilterRun struct{ Commodity, Account string } // regexes, "" = flag not given
+
+type c12FilterCase struct {
+	c12Case
+	Positions   []c12Position
+	BookDay     int
+	To          int // 0 = no --to
+	Runs        []c12FilterRun
+	Unconnected []string // booked commodities not connected to V when booked
+}
+
+func c12FilterPrice(r *RNG) string {
+	switch k := r.Intn(10); {
+	case k < 3:
+		return Pick(r, []string{"1", "2", "3", "5", "7", "10", "100", "4", "8", "0.5", "0.25", "1.25", "0.2", "0.1", "1.5", "0.125", "2.5"})
+	case k < 5:
+		return Pick(r, []string{"3", "7", "0.3", "0.7", "9", "11", "13", "0.03", "1.7", "6", "1.10", "0.95", "0.80"})
+	case k < 7:
+		return fmt.Sprintf("%d.%0*d", r.Intn(300), r.Range(1, 6), r.Range(1, 99999))
+	case k == 7:
+		return fmt.Sprintf("%d.%08d", r.Intn(50), r.Range(1, 99999999))
+	case k == 8:
+		return fmt.Sprintf("%d.%08d%d", r.Intn(50), r.Range(1, 99999999), r.Range(1, 99999))
+	default:
+		return fmt.Sprintf("%d.%02d", r.Range(1, 2000), r.Intn(100))
+	}
+}
+
+// c12GenFilter: a price graph of 3-8 commodities (chains of length 2-4 from V, diamonds and ladders with two routes of equal
+// length so that name order decides, cycles, trees, triangles; every pair quoted in a random direction or, a quarter of the
+// cases each, all pairs quoted towards / away from the lower index), declared on one or two dates; positions of one to all
+// of the commodities booked the day after in 1-3 asset accounts; 0-3 later re-quotes / new pairs (value adjustments); a
+// report date (--to) on or after the booking date; 2-3 filtered runs (--commodity: one or several booked commodities
+// anchored, one unanchored name, an intermediate commodity, everything; --account; both).
+func c12GenFilter(r *RNG) c12FilterCase {
+	n := r.Range(3, 6)
+	if r.Chance(1, 5) {
+		n = r.Range(7, 8)
+	}
+	shape := Pick(r, []string{"line", "line", "diamond", "diamond", "ladder", "cycle", "tree", "triangle", "star", "complete", "two-components"})
+	if shape == "complete" && n > 5 {
+		shape = "cycle"
+	}
+	if shape == "line" && n > 5 {
+		n = r.Range(3, 5)
+	}
+	names := c12Names(r, n)
+	k := c12FilterCase{c12Case: c12Case{Shape: shape + "/filter", Names: names}}
+	base := 737000 + r.Intn(1000)
+	dir := r.Intn(4) // 0, 1: random per pair; 2: lower index quoted in higher; 3: higher quoted in lower
+	type pair struct{ a, b int }
+	seen := map[pair]bool{}
+	var pairs []pair
+	for _, e := range c12Graph(r, shape, n) {
+		a, b := e[0]%n, e[1]%n
+		if a > b {
+			a, b = b, a
+		}
+		if a == b || seen[pair{a, b}] {
+			continue
+		}
+		seen[pair{a, b}] = true
+		pairs = append(pairs, pair{a, b})
+		if dir == 3 || (dir < 2 && r.Bool()) {
+			a, b = b, a
+		}
+		k.Decls = append(k.Decls, c12Decl{Com: names[a], Price: c12FilterPrice(r), Tgt: names[b], Day: base - r.Intn(2)*r.Intn(2)})
+	}
+	for i := len(k.Decls) - 1; i > 0; i-- {
+		j := r.Intn(i + 1)
+		k.Decls[i], k.Decls[j] = k.Decls[j], k.Decls[i]
+	}
+	// V: an end of the chain / the corner of the diamond half of the time
+	k.V = names[0]
+	if r.Bool() {
+		k.V = Pick(r, names)
+	}
+	// connected to V when the positions are booked
+	parent := map[string]string{}
+	var find func(x string) string
+	find = func(x string) string {
+		if p, ok := parent[x]; ok && p != x {
+			root := find(p)
+			parent[x] = root
+			return root
+		}
+		return x
+	}
+	for _, d := range k.Decls {
+		parent[find(d.Com)] = find(d.Tgt)
+	}
+	k.BookDay = base + 1
+	nacct := r.Range(1, 3)
+	all := r.Chance(1, 3)
+	for _, c := range names {
+		conn := find(c) == find(k.V)
+		if (conn && (all || r.Bool())) || (!conn && r.Chance(1, 12)) {
+			k.Positions = append(k.Positions, c12Position{Acct: r.Intn(nacct), Com: c, Qty: itoa(r.Range(1, 500))})
+			if !conn {
+				k.Unconnected = append(k.Unconnected, c)
+			}
+			if r.Chance(1, 6) { // a second lot, same or another account
+				k.Positions = append(k.Positions, c12Position{Acct: r.Intn(nacct), Com: c, Qty: itoa(r.Range(1, 500))})
+			}
+		}
+	}
+	if len(k.Positions) == 0 {
+		c := names[n-1]
+		if find(c) != find(k.V) {
+			c = k.V
+		}
+		k.Positions = append(k.Positions, c12Position{Acct: 0, Com: c, Qty: itoa(r.Range(1, 500))})
+	}
+	// later quotes: an existing pair again (either direction) or a new pair
+	last := k.BookDay
+	for j := r.Intn(4); j > 0 && len(pairs) > 0; j-- {
+		p := Pick(r, pairs)
+		if r.Chance(1, 4) {
+			p = pair{r.Intn(n), r.Intn(n)}
+			if p.a == p.b {
+				continue
+			}
+		}
+		a, b := p.a, p.b
+		if r.Bool() {
+			a, b = b, a
+		}
+		d := c12Decl{Com: names[a], Price: c12FilterPrice(r), Tgt: names[b], Day: k.BookDay + r.Range(1, 3)}
+		if d.Day > last {
+			last = d.Day
+		}
+		k.Decls = append(k.Decls, d)
+	}
+	if r.Chance(1, 3) {
+		k.To = r.Range(k.BookDay, last+1)
+	}
+	// the filtered runs
+	booked := []string{}
+	isBooked := map[string]bool{}
+	for _, p := range k.Positions {
+		if !isBooked[p.Com] {
+			isBooked[p.Com] = true
+			booked = append(booked, p.Com)
+		}
+	}
+	comRx := func() string {
+		switch s := r.Intn(12); {
+		case s < 5: // one booked commodity
+			return "^" + Pick(r, booked) + "$"
+		case s < 8: // several
+			m := r.Range(1, 3)
+			var xs []string
+			for j := 0; j < m; j++ {
+				xs = append(xs, Pick(r, booked))
+			}
+			return "^(" + strings.Join(xs, "|") + ")$"
+		case s < 10: // unanchored: also selects names containing it
+			return Pick(r, booked)
+		case s == 10: // any commodity of the graph, booked or not
+			return "^" + Pick(r, names) + "$"
+		default:
+			return "."
+		}
+	}
+	acctRx := func() string {
+		return Pick(r, []string{"P0", "P1", "P0|P2", "Assets:P" + itoa(r.Intn(nacct)) + "$", "^Assets", "Assets|Equity", "P[12]"})
+	}
+	for j := r.Range(2, 3); j > 0; j-- {
+		var f c12FilterRun
+		switch s := r.Intn(6); {
+		case s < 4:
+			f.Commodity = comRx()
+		case s == 4:
+			f.Account = acctRx()
+		default:
+			f.Commodity, f.Account = comRx(), acctRx()
+		}
+		k.Runs = append(k.Runs, f)
+	}
+	return k
+}
+
+func c12FilterJournal(k c12FilterCase) string {
+	var b strings.Builder
+	open := dayTime(k.BookDay - 5).Format("2006-01-02")
+	fmt.Fprintf(&b, "%s open Equity:Opening\n", open)
+	accts := map[int]bool{}
+	for _, p := range k.Positions {
+		if !accts[p.Acct] {
+			accts[p.Acct] = true
+			fmt.Fprintf(&b, "%s open Assets:P%d\n", open, p.Acct)
+		}
+	}
+	for _, d := range k.Decls {
+		fmt.Fprintf(&b, "%s price %s %s %s\n", dayTime(d.Day).Format("2006-01-02"), d.Com, d.Price, d.Tgt)
+	}
+	for _, p := range k.Positions {
+		fmt.Fprintf(&b, "\n%s \"position\"\nEquity:Opening Assets:P%d %s %s\n", dayTime(k.BookDay).Format("2006-01-02"), p.Acct, p.Qty, p.Com)
+	}
+	return b.String()
+}
+
+// c12ParseReport reads the CSV of `balance -v V -s . --csv` with one date column: section/account/commodity -> cell.
+// Total and Delta rows are sums over the rows shown and are left out.
+func c12ParseReport(out string) (map[string]string, error) {
+	cells := map[string]string{}
+	section, acct := "", ""
+	for n, line := range strings.Split(strings.TrimRight(out, "\n"), "\n") {
+		f := strings.Split(line, ",")
+		if len(f) != 3 {
+			return nil, fmt.Errorf("line %d: %d fields: %q", n+1, len(f), line)
+		}
+		if n == 0 {
+			continue
+		}
+		if f[0] != "" {
+			acct = f[0]
+		}
+		if f[1] == "" && f[2] == "" {
+			section = f[0]
+			continue
+		}
+		if strings.HasPrefix(acct, "Total (") || acct == "Delta" {
+			continue
+		}
+		key := section + "/" + acct + "/" + f[1]
+		if _, dup := cells[key]; dup {
+			return nil, fmt.Errorf("line %d: second row %s", n+1, key)
+		}
+		cells[key] = f[2]
+	}
+	return cells, nil
+}
+
+func c12DecEq(a, b string) bool {
+	x, e1 := decimal.NewFromString(a)
+	y, e2 := decimal.NewFromString(b)
+	return e1 == nil && e2 == nil && x.Equal(y)
+}
+
+func (c *Ctx) c12FilterCaseRun(bt *Batch, stream string, i int, k c12FilterCase) {
+	if c.KnutBin == "" || c.WorkDir == "" {
+		return
+	}
+	text := c12FilterJournal(k)
+	os.MkdirAll(c.WorkDir, 0o755)
+	path := filepath.Join(c.WorkDir, "c12filter.knut")
+	if err := os.WriteFile(path, []byte(text), 0o644); err != nil {
+		panic(err)
+	}
+	common := []string{"balance", "-v", k.V, "--csv", "-s", ".", "--color=false"}
+	if k.To != 0 {
+		common = append(common, "--to", dayTime(k.To).Format("2006-01-02"))
+	}
+	in := map[string]any{"shape": k.Shape, "v": k.V, "journal": text, "command": "knut " + strings.Join(common, " ") + " journal.knut"}
+	code, out, stderr := runKnut(c.KnutBin, 30*time.Second, nil, append(append([]string{}, common...), path)...)
+	if code == -2 {
+		c.Tag("balance-timeout-skipped")
+		return
+	}
+	c.Evals++
+	c.Tag("filter-balance-binary")
+	if len(k.Unconnected) > 0 {
+		c.Monitor(stream, i, "knut balance -v: fails (no price found) when a booked commodity is not connected to V", in,
+			code != 0 && strings.Contains(stderr, "no price found"), fmt.Sprintf("exit %d stderr %q; not connected to %s: %v", code, c12FirstLine(stderr), k.V, k.Unconnected))
+		c.Class("c12filter/" + k.Shape + "/unconnected")
+		return
+	}
+	if !c.Monitor(stream, i, "knut balance -v: every booked commodity is connected to V, so the report is produced", in, code == 0, fmt.Sprintf("exit %d stderr %q", code, c12FirstLine(stderr))) {
+		return
+	}
+	full, err := c12ParseReport(out)
+	if !c.Monitor(stream, i, "knut balance -v --csv -s .: one row per account and commodity", in, err == nil, fmt.Sprintf("%v\n%s", err, out)) {
+		return
+	}
+	// the implied prices are the model's normalised prices of the report date: cell = Valuate(total quantity)
+	day := k.To
+	if day == 0 {
+		day = 1 << 30
+	}
+	var prefix []c12Decl
+	for _, d := range k.Decls {
+		if d.Day <= day {
+			prefix = append(prefix, d)
+		}
+	}
+	sort.SliceStable(prefix, func(a, b int) bool { return prefix[a].Day < prefix[b].Day })
+	type lot struct {
+		acct int
+		com  string
+	}
+	totals := map[lot]int{}
+	var lots []lot
+	for _, p := range k.Positions {
+		l := lot{p.Acct, p.Com}
+		if _, ok := totals[l]; !ok {
+			lots = append(lots, l)
+		}
+		q := 0
+		fmt.Sscanf(p.Qty, "%d", &q)
+		totals[l] += q
+	}
+	var qs []c12Query
+	for _, l := range lots {
+		qs = append(qs, c12Query{l.com, itoa(totals[l])})
+	}
+	bt.Add(func(model string) {
+		parts := strings.Fields(model)
+		if len(parts) != len(lots)+1 || parts[0] != "ok" {
+			c.Monitor(stream, i, "the model values the positions", in, false, model)
+			return
+		}
+		for j, l := range lots {
+			pv := strings.SplitN(parts[j+1], "/", 2)
+			key := fmt.Sprintf("Assets/P%d/%s", l.acct, l.com)
+			cell, shown := full[key]
+			ok := len(pv) == 2 && ((shown && c12DecEq(cell, pv[1])) || (!shown && c12DecEq(pv[1], "0")))
+			c.Monitor(stream, i, "knut balance -v: the value of a position is quantity x the normalised price of the report date (priceOK on the report)", in, ok,
+				fmt.Sprintf("%d %s in Assets:P%d: report %q (shown=%v), model price/value %s\n%s", totals[l], l.com, l.acct, cell, shown, parts[j+1], out))
+		}
+	}, "c12", Hex(k.V), c12DeclsField(prefix, false), c12QueriesField(qs), "0")
+	// filtered runs: rows are selected, cells never change
+	for _, f := range k.Runs {
+		args := append([]string{}, common...)
+		if f.Commodity != "" {
+			args = append(args, "--commodity", f.Commodity)
+		}
+		if f.Account != "" {
+			args = append(args, "--account", f.Account)
+		}
+		in2 := map[string]any{"case": in, "filtered": "knut " + strings.Join(args, " ") + " journal.knut"}
+		code2, out2, stderr2 := runKnut(c.KnutBin, 30*time.Second, nil, append(args, path)...)
+		if code2 == -2 {
+			c.Tag("balance-timeout-skipped")
+			continue
+		}
+		c.Evals++
+		if !c.Monitor(stream, i, "a row filter never changes whether the positions can be valued", in2, code2 == 0, fmt.Sprintf("unfiltered exit 0, filtered exit %d stderr %q", code2, c12FirstLine(stderr2))) {
+			continue
+		}
+		part, err := c12ParseReport(out2)
+		if out2 == "" || strings.Count(out2, "\n") <= 1 {
+			part, err = map[string]string{}, nil
+		}
+		if !c.Monitor(stream, i, "knut balance -v --csv -s .: one row per account and commodity", in2, err == nil, fmt.Sprintf("%v\n%s", err, out2)) {
+			continue
+		}
+		var bad []string
+		for key, cell := range part {
+			if want, ok := full[key]; !ok || want != cell {
+				bad = append(bad, fmt.Sprintf("%s: filtered %s, unfiltered %q", key, cell, want))
+			}
+		}
+		sort.Strings(bad)
+		c.Monitor(stream, i, "a row filter selects rows, it never changes the price used: every cell of the filtered report equals the cell of the unfiltered report", in2, len(bad) == 0,
+			strings.Join(bad, "; ")+"\nunfiltered:\n"+out+"filtered:\n"+out2)
+		// the Assets rows shown are exactly the selected ones
+		crx, arx := c12Rx(f.Commodity), c12Rx(f.Account)
+		var wrong []string
+		for _, l := range lots {
+			key := fmt.Sprintf("Assets/P%d/%s", l.acct, l.com)
+			_, inFull := full[key]
+			_, inPart := part[key]
+			sel := crx.MatchString(l.com) && arx.MatchString(fmt.Sprintf("Assets:P%d", l.acct))
+			if inPart != (inFull && sel) {
+				wrong = append(wrong, fmt.Sprintf("%s selected=%v shown unfiltered=%v filtered=%v", key, sel, inFull, inPart))
+			}
+		}
+		c.Monitor(stream, i, "a row filter shows exactly the selected positions", in2, len(wrong) == 0, strings.Join(wrong, "; ")+"\nunfiltered:\n"+out+"filtered:\n"+out2)
+	}
+	c.Class(fmt.Sprintf("c12filter/%s/n%d/pos%s/to%v/later%v", k.Shape, len(k.Names), bucket(len(lots)), k.To != 0, len(prefix) > 0 && prefix[len(prefix)-1].Day > k.BookDay))
+	if i < 1 {
+		c.Sample(map[string]any{"stream": stream, "input": in, "impl": out})
+	}
+}
+
+func c12Rx(s string) *regexp.Regexp {
+	if s == "" {
+		s = ".*"
+	}
+	return regexp.MustCompile(s)
 }
